@@ -124,6 +124,38 @@ func genPayload(it WireItem) []byte {
 			n = len(full)
 		}
 		return full[:n]
+	case "aggr":
+		// an aggregate message: well-formed sub-messages, then 0..12 trailing bytes (a torn next sub-message header),
+		// optionally with the last sub-message's declared length beyond the end
+		var b []byte
+		for j := 0; j < 1+n%3; j++ {
+			body := randBytes(it.Seed+uint64(j), 3+j*7)
+			l := len(body)
+			if it.Shape&0x10 != 0 && j == n%3 {
+				l += 1 + it.Shape%5
+			}
+			b = append(b, []byte{[]byte{8, 9, 18}[j%3], byte(l >> 16), byte(l >> 8), byte(l), 0, 0, byte(40 * j), 0, 0, 0, 0}...)
+			b = append(b, body...)
+			b = append(b, 0, 0, 0, byte(11+len(body)))
+		}
+		return append(b, randBytes(it.Seed+99, it.Shape%13)...)
+	case "nal_zero_len":
+		// AVCC / HVCC NAL lists with zero-length and tiny NAL units between valid ones
+		hdr := [][]byte{{0x27, 1, 0, 0, 0}, {0x17, 1, 0, 0, 0}, {0x2c, 1, 0, 0, 0}, {0x1c, 1, 0, 0, 0}}[it.Shape%4]
+		b := append([]byte{}, hdr...)
+		for j := 0; j < 1+n%4; j++ {
+			switch (it.Shape >> (2 + 2*uint(j))) & 3 {
+			case 0:
+				b = append(b, 0, 0, 0, 0)
+			case 1:
+				b = append(b, 0, 0, 0, 1, 0x41)
+			case 2:
+				b = append(b, 0, 0, 0, 2, 0x41, 0x9a)
+			default:
+				b = append(b, 0, 0, 0, 3, 0x65, 0x88, 0x80)
+			}
+		}
+		return b
 	case "valid_video":
 		return media.VideoPayload(media.CodecAVC, it.Shape%2 == 0, 0, [][]byte{media.AvcNal(map[bool]int{true: 5, false: 1}[it.Shape%2 == 0], 3, 9, int(it.Seed%1000), 0, maxInt(1, n))})
 	case "valid_audio":
@@ -360,7 +392,7 @@ func genWireItems(r *sim.Rng, n int, asPublisher bool) []WireItem {
 		case 3:
 			items = append(items, WireItem{Kind: "cmd", Name: []string{"connect", "createStream", "publish", "play", "deleteStream", "FCPublish", "releaseStream", "getStreamLength", "pause", "xyz", "_result", "onStatus"}[r.Intn(12)], Shape: r.Intn(10), N: r.Intn(5), Msid: r.Intn(2), Type: []int{0, 0, 0, 17}[r.Intn(4)]})
 		case 4: // media / data before or after the role is fixed
-			gen := []string{"video_hdr", "audio_hdr", "valid_video", "valid_audio", "seqhdr_trunc", "hevc_seqhdr_trunc"}[r.Intn(6)]
+			gen := []string{"video_hdr", "audio_hdr", "valid_video", "valid_audio", "seqhdr_trunc", "hevc_seqhdr_trunc", "nal_zero_len"}[r.Intn(7)]
 			t := 9
 			if gen == "audio_hdr" || gen == "valid_audio" {
 				t = 8
@@ -383,7 +415,11 @@ func genWireItems(r *sim.Rng, n int, asPublisher bool) []WireItem {
 		case 9:
 			items = append(items, WireItem{Kind: "setchunk", N: []int{0, 1, 2, 127, 128, 4096, 65536, 0xFFFFFF, 0x1000000, 0x7fffffff, -2147483648, -1}[r.Intn(12)], Shape: r.Intn(2)})
 		case 10:
-			items = append(items, WireItem{Kind: "msg", Type: 22, Csid: 4, Msid: 1, Gen: "rand", N: []int{0, 5, 10, 11, 12, 30, 200}[r.Intn(7)], Seed: seed})
+			if r.Bool(0.5) {
+				items = append(items, WireItem{Kind: "msg", Type: 22, Csid: 4, Msid: r.Intn(2), Gen: "aggr", N: r.Intn(9), Shape: r.Intn(64), Seed: seed})
+			} else {
+				items = append(items, WireItem{Kind: "msg", Type: 22, Csid: 4, Msid: 1, Gen: "rand", N: []int{0, 5, 10, 11, 12, 30, 200}[r.Intn(7)], Seed: seed})
+			}
 		case 11:
 			if asPublisher {
 				items = append(items, WireItem{Kind: "msg", Type: 9, Csid: 6, Msid: 1, Ts: uint32(r.Intn(5000)), Gen: "valid_video", N: r.Intn(300), Seed: seed, Shape: r.Intn(2)})
